@@ -1,3 +1,4 @@
+import numpy as np
 import scipy as sp
 
 from .linear_solver import LinearSolver, LinearSolverError
@@ -14,11 +15,23 @@ class MINRESSolver(LinearSolver):
         if initial_sol is not None:
             initial_sol = initial_sol()
 
-        result = sp.sparse.linalg.minres(self.mat, rhs, x0=initial_sol)
+        # The stopping test of scipy's MINRES uses a matrix norm estimate
+        # which includes the norm of the right-hand side: shrink the
+        # right-hand side to prevent it from stopping early
+        rhs_norm = np.linalg.norm(rhs)
+        mat_norm = sp.sparse.linalg.norm(self.mat)
+        scale = 1.0
+
+        if rhs_norm > 0.0 and mat_norm > 0.0:
+            scale = 1e-5 * mat_norm / rhs_norm
+            if initial_sol is not None:
+                initial_sol = scale * initial_sol
+
+        result = sp.sparse.linalg.minres(self.mat, scale * rhs, x0=initial_sol)
 
         (sol, info) = result
 
         if info != 0:
             raise LinearSolverError("MINRES failed with error code {}".format(info))
 
-        return sol
+        return sol / scale
